@@ -17,6 +17,7 @@ mod p10;
 mod p11;
 mod p16;
 mod p21;
+mod p22;
 mod p23;
 mod p25;
 mod p29;
@@ -31,6 +32,13 @@ fn main() {
         std::process::exit(2);
     }
     let prop = args[1].clone();
+    if prop == "C22" {
+        if let Ok(spec) = std::env::var("VH_C22_CHILD") {
+            std::panic::set_hook(Box::new(|_| {}));
+            p22::child_main(&spec);
+            return;
+        }
+    }
     if prop == "C21" {
         if let Ok(spec) = std::env::var("VH_C21_CHILD") {
             if std::env::var("VH_VERBOSE_PANIC").is_err() { std::panic::set_hook(Box::new(|_| {})); }
@@ -67,6 +75,7 @@ fn main() {
         "C11" => p11::run(&mut ctx),
         "C16" => p16::run(&mut ctx),
         "C21" => p21::run(&mut ctx),
+        "C22" => p22::run(&mut ctx),
         "C23" => p23::run(&mut ctx),
         "C25" => p25::run(&mut ctx),
         "C29" => p29::run(&mut ctx),
